@@ -2,7 +2,7 @@ ID = "C10"
 LEVEL = "model_checking"
 MIRSYM = "C10"
 BOUNDS = ("Server::start_inner for accept outcomes Established / Err / Shutdown in any sequence (3 visits per loop head); the connection task for connection-first / stop-first; ws::background_task "
-          "from every resume point; ws::graceful_shutdown for result Ok(Stopped) / Ok(ConnectionClosed) / Err and every readiness; the per-message task for every call / sink readiness; the low-level driver serve_with_graceful_shutdown from every resume point (a select! in its body is inlined)")
+          "from every resume point; ws::graceful_shutdown for result Ok(Stopped) / Ok(ConnectionClosed) / Err and every readiness; the per-message task for every call / sink readiness; the low-level driver serve_with_graceful_shutdown from every resume point (a select! in its body is inlined); what is awaited after graceful_shutdown() is the connection itself")
 EXPLANATION = ("Reduced claim. Symbolic execution of the MIR of the accept loop, the connection task, ws::background_task, ws::graceful_shutdown and the per-message task: z3 decides the token "
                "discipline that makes `stopped` wait - tokens are handed to every connection, dropped only after the connection future completed, pending-call tokens are released only after "
                "the answer reached the sink, the writer is stopped only after the wait for them, and the accept loop finishes only after every token is gone. The low-level connection driver finishes only with the connection's completion and polls no completed future again.")
